@@ -148,10 +148,14 @@ pub enum Op {
     PwUnwrapTamperedCost,
     UnsealGood,
     UnsealTampered,
+    /// signature whose first half (r / R / upper half of the RSA signature) is all zero
+    VerifyZeroFirstHalf,
+    /// signature whose second half (s / S) is all zero
+    VerifyZeroSecondHalf,
 }
 
 pub const OPS_SCHED: [Op; 9] = [Op::Sign, Op::VerifyGood, Op::VerifyForged, Op::Encrypt, Op::DecryptForged, Op::DecryptCallbacks, Op::CloneDrop, Op::PublicKey, Op::WrapPie];
-pub const OPS_HIST: [Op; 18] = [Op::Sign, Op::VerifyGood, Op::VerifyForged, Op::Encrypt, Op::DecryptGood, Op::DecryptForged, Op::CloneDrop, Op::Id, Op::WrapPie, Op::UnwrapBad, Op::PwUnwrapWrongPassword, Op::UnsealWrongRecipient, Op::Expose, Op::UnwrapGood, Op::PwUnwrapGood, Op::PwUnwrapTamperedCost, Op::UnsealGood, Op::UnsealTampered];
+pub const OPS_HIST: [Op; 20] = [Op::Sign, Op::VerifyGood, Op::VerifyForged, Op::Encrypt, Op::DecryptGood, Op::DecryptForged, Op::CloneDrop, Op::Id, Op::WrapPie, Op::UnwrapBad, Op::PwUnwrapWrongPassword, Op::UnsealWrongRecipient, Op::Expose, Op::UnwrapGood, Op::PwUnwrapGood, Op::PwUnwrapTamperedCost, Op::UnsealGood, Op::UnsealTampered, Op::VerifyZeroFirstHalf, Op::VerifyZeroSecondHalf];
 /// first uses of a key object that has never been used (cold start), raced pairwise
 pub const OPS_COLD: [Op; 11] = [Op::Sign, Op::VerifyGood, Op::VerifyForged, Op::Encrypt, Op::DecryptGood, Op::CloneDrop, Op::PublicKey, Op::Id, Op::WrapPie, Op::UnsealGood, Op::Expose];
 
@@ -178,6 +182,8 @@ pub struct Fx {
     good_signed: String,
     good_encrypted: String,
     forged_signed: String,
+    zero_first_half_signed: String,
+    zero_second_half_signed: String,
     forged_encrypted: String,
     good_pie: String,
     bad_pie: String,
@@ -207,6 +213,15 @@ fn fixtures<V: Full>() -> Arc<Fx> {
             ops::join_token(&h, &b, f.as_deref())
         };
         let forged_signed = flip_last(&good_signed);
+        let zero_half = |s: &str, first: bool| {
+            let (h, mut b, f) = ops::split_token(s).unwrap();
+            let (n, sl) = (b.len(), V::sig_len());
+            let (from, to) = if first { (n - sl, n - sl / 2) } else { (n - sl / 2, n) };
+            b[from..to].fill(0);
+            ops::join_token(&h, &b, f.as_deref())
+        };
+        let zero_first_half_signed = zero_half(&good_signed, true);
+        let zero_second_half_signed = zero_half(&good_signed, false);
         let forged_encrypted = flip_last(&good_encrypted);
         let good_pie = pk::pie_wrap::<V, Local>(&ks.locals[0].bytes, &ks.locals[2].bytes).unwrap();
         let (h, mut b) = pk::split(&good_pie).unwrap();
@@ -237,6 +252,8 @@ fn fixtures<V: Full>() -> Arc<Fx> {
             good_signed,
             good_encrypted,
             forged_signed,
+            zero_first_half_signed,
+            zero_second_half_signed,
             forged_encrypted,
             good_pie,
             bad_pie,
@@ -346,6 +363,8 @@ pub fn run_op<V: Full>(op: Op, k: &Shared<V>) -> Res {
                 Res::Exact(s.unseal(&k.pke_secret).map(|x| hex::encode(keys::key_bytes(&x))).unwrap_or_else(e))
             }
             Op::Expose => Res::Exact(format!("{}|{}", k.local.expose_key(), k.secret.expose_key())),
+            Op::VerifyZeroFirstHalf => Res::Exact(ops::verify::<V>(&k.public, &k.zero_first_half_signed, b"").map(|c| hex::encode(c.0)).unwrap_or_else(e)),
+            Op::VerifyZeroSecondHalf => Res::Exact(ops::verify::<V>(&k.public, &k.zero_second_half_signed, b"").map(|c| hex::encode(c.0)).unwrap_or_else(e)),
             Op::UnwrapGood => Res::Exact(k.good_pie.parse::<paseto_core::paserk::PieWrappedKey<V, Local>>().and_then(|p| p.unwrap(&k.local)).map(|x| hex::encode(keys::key_bytes(&x))).unwrap_or_else(e)),
             Op::PwUnwrapGood => Res::Exact(pk::pw_unwrap::<V, Local>(&k.pw_blob, b"right").map(hex::encode).unwrap_or_else(e)),
             Op::PwUnwrapTamperedCost => Res::Exact(pk::pw_unwrap::<V, Local>(&k.pw_tampered_cost, b"right").map(hex::encode).unwrap_or_else(e)),
@@ -571,7 +590,7 @@ fn histories<V: Full>(prop: &mut Property, ctx: &Ctx) {
         Sub::new(
             format!("{name}/histories"),
             opsn,
-            format!("BFS over all operation histories of depth <= {depth} on one key over {:?} (failing operations: forged tokens, corrupted wrapped key, wrong password, right password on a blob whose cost field was changed, wrong recipient, tampered sealed key), run one history at a time so that process-wide state left by one operation is seen by the next; after every prefix the probe set (fixed-nonce seal, decrypt and verify of fixed tokens, deterministic signature, ids, exposed bytes) equals the probe of a fresh copy; every operation's result equals its result on a fresh copy", OPS_HIST),
+            format!("BFS over all operation histories of depth <= {depth} on one key over {:?} (failing operations: forged tokens, corrupted wrapped key, wrong password, right password on a blob whose cost field was changed, wrong recipient, tampered sealed key, signatures with an all-zero half), run one history at a time so that process-wide state left by one operation is seen by the next; after every prefix the probe set (fixed-nonce seal, decrypt and verify of fixed tokens, deterministic signature, ids, exposed bytes) equals the probe of a fresh copy; every operation's result equals its result on a fresh copy", OPS_HIST),
             move |idx, describe| {
                 let mut o = Outcome::new();
                 o.evals = 0;
